@@ -77,6 +77,7 @@ type State struct {
 	arrayAlias   map[*ArrayV]*Object
 	ufVars       map[string]*Term
 	sqrtOf       map[*Term]*Term
+	sqrtMemo     map[*Term]*Term
 	absOf        map[*Term]*Term
 }
 
